@@ -23,6 +23,8 @@ claimed = {
          "bounds in evidence; library-backed helpers, constant-only parameters, concurrency outside; float arithmetic abstracted as uninterpreted functions"),
  "C19": ("Real stdmath tokenizer, parser (compileTokens/getNextExpr/getNextOp/opCodeOrder), simplify and the ops/uniOps closures executed on symbolic operands and formula texts: no operator panics for any operand, the compiled tree equals the parse under the documented order of operations, literals and bound variables are interchangeable, malformed text is rejected without a crash.",
          "bounds in evidence (formulas of 2..3/4 operands, texts <=4/5 bytes); float values of the operators not claimed"),
+ "C07": ("Real MatchCounter, SubKeyCounter, TableAggregator (Sample/SampleValue/SampleItem, Items, SubKeys, totals, ComputeMinMax, Trim) and MatchNumerical/StatisticalAnalysis executed on symbolic sample histories and compared, after every prefix, with a straightforward fold written in the harness; increments range over all of int64 with wrap-around; Trim under every forked map iteration order; adjacent samples commute.",
+         "bounds in evidence (histories of 1..3/4 samples over a 3-key alphabet); mean/standard deviation (float accumulation) and the accumulating group outside"),
 }
 man = {
  "version": 1,
